@@ -327,9 +327,14 @@ pub trait Engine: Sync {
     /// that are individually below the hang limit); about 20x the slowest legitimate case
     fn case_secs(&self, ctx: &Ctx) -> f64 {
         match ctx.tier {
-            Tier::Quick => 240.0,
+            Tier::Quick => 120.0,
             Tier::Thorough => 3600.0,
         }
+    }
+    /// restart the worker process after every case (engines whose oracle is about
+    /// process-wide hidden state)
+    fn fresh_worker_per_case(&self) -> bool {
+        false
     }
     /// whether a violation class counts for this engine's property
     fn judges(&self, _class: &str) -> bool {
@@ -426,6 +431,7 @@ pub fn supervise(ctx: &Ctx, n_cases: usize, only: Option<Vec<usize>>) -> RunOutp
     let errors: Arc<Mutex<Vec<String>>> = Arc::new(Mutex::new(Vec::new()));
     let nw = workers_wanted().min(order.len().max(1));
     let exe = std::env::current_exe().expect("current_exe");
+    let fresh_per_case = crate::engine::engine_for(&ctx.property).map(|e| e.fresh_worker_per_case()).unwrap_or(false);
     let mut handles = Vec::new();
     for _w in 0..nw {
         let order = order.clone();
@@ -520,6 +526,12 @@ pub fn supervise(ctx: &Ctx, n_cases: usize, only: Option<Vec<usize>>) -> RunOutp
                         errors.lock().unwrap().push(format!("engine panicked in case {}", rest.trim()));
                     } else {
                         errors.lock().unwrap().push(format!("case {idx}: unexpected worker line {line:?}"));
+                    }
+                    if fresh_per_case && !respawn {
+                        let _ = writeln!(cin, "Q");
+                        let _ = cin.flush();
+                        let _ = child.wait();
+                        respawn = true;
                     }
                     if respawn {
                         child = match spawn() {
